@@ -189,7 +189,7 @@ def r3_sources_and_atoms(ctx):
             for lo, hi in BOUNDS:
                 n_eval += 1
                 try:
-                    vis = explore(g, {'data_type': dt, 'min_len': lo, 'max_len': hi, 'elem_val': val}, start=start, unknown='stop', on_unknown=_unknown)
+                    vis = explore(g, {'data_type': dt, 'min_len': lo, 'max_len': hi, 'elem_val': val}, unknown='both', on_unknown=_unknown)
                 except RuntimeError as e:
                     raise AnalysisError('element_if.is_valid: %s' % e)
                 got = {report_nodes[i] for i in vis if i in report_nodes}
@@ -391,6 +391,71 @@ def r5_data(ctx):
             yield Ob('%s regex compiles' % D.nodekey(n), ok, D.where(n), '' if ok else 'regex %r' % n.regex)
 
 
+def r7_dtp_format_from_qualifier(ctx):
+    """"the date/time format is the one chosen by the preceding qualifier": for element 03 of a DTP segment the list of
+    formats handed to the element validator holds the qualifier actually sent in DTP02 and nothing else.  The arm of
+    the element dispatch that is taken for (DTP, position 3) is found by evaluating the arm tests; the list it passes
+    must be bound only to `[<value of element 02>]` (or the empty list) and never grown."""
+    fn = ctx.func('map_if', 'segment_if.is_valid')
+    calls = [c for c in A.calls_in(fn) if A.call_target(c)[1] == 'is_valid' and len(c.args) == 3]
+    if not calls:
+        yield Ob('map_if:segment_if.is_valid passes a format list for date/time elements', False, ctx.floc(fn), 'no is_valid(.., .., type list) call')
+        return
+    env = {'i': 2, 'seg_data.get_seg_id()': 'DTP', 'seg_id': 'DTP', 'child_node.data_ele': '1251'}
+    taken = []
+    for c in calls:
+        st = A.enclosing(c, (ast.stmt,))
+        verdict = True
+        for t, pol in A.path_condition(st, fn):
+            try:
+                v = bool(A.ev(t, env)) == pol
+            except (A.NotClosed, TypeError, AttributeError):
+                v = None
+            if v is False:
+                verdict = False
+                break
+            if v is None and verdict is True:
+                verdict = None
+        if verdict is not False:
+            taken.append((c, verdict))
+    # arms of one if/elif chain are tried in order: a call is only reached if no earlier arm is certainly taken
+    taken.sort(key=lambda cv: cv[0].lineno)
+    reach = []
+    for c, v in taken:
+        reach.append(c)
+        if v is True:
+            break
+    if not reach:
+        yield Ob('map_if:segment_if.is_valid DTP03 is validated with a format list', False, ctx.floc(fn),
+                 'no format-list call is reached for element 03 of a DTP segment')
+        return
+    for c in reach:
+        lst = c.args[2]
+        probs = []
+        if isinstance(lst, ast.Name):
+            nm = lst.id
+            for n in ast.walk(fn):
+                if isinstance(n, ast.Assign) and any(path_of(t) == nm for t in n.targets):
+                    v = n.value
+                    okv = isinstance(v, ast.List) and (not v.elts or (len(v.elts) == 1 and isinstance(v.elts[0], ast.Call)
+                                                                        and A.call_target(v.elts[0])[1] == 'get_value'
+                                                                        and A.const(v.elts[0].args[0]) in ('02', 'DTP02')))
+                    if not okv:
+                        probs.append('bound to %s' % norm(v))
+                if isinstance(n, ast.AugAssign) and path_of(n.target) == nm:
+                    probs.append('grown by %s' % norm(n))
+                if isinstance(n, ast.Call) and A.call_target(n)[0] == nm and A.call_target(n)[1] in ('extend', 'append', 'insert'):
+                    probs.append('grown by %s' % norm(n))
+        elif isinstance(lst, ast.List) and len(lst.elts) == 1 and isinstance(lst.elts[0], ast.Call) \
+                and A.call_target(lst.elts[0])[1] == 'get_value' and A.const(lst.elts[0].args[0]) in ('02', 'DTP02'):
+            pass
+        else:
+            probs.append('is %s' % norm(lst))
+        yield Ob('map_if:segment_if.is_valid DTP03 format list holds only the qualifier sent in DTP02', not probs, ctx.floc(fn, c),
+                 '' if not probs else 'the list passed for DTP03 (%s) is %s: a value in any other format the map allows would be accepted'
+                 % (norm(lst), '; '.join(probs[:2])))
+
+
 RULES = [
     Rule('C15.R1', 'reported => result False (path search from every report)', r1_reported_implies_false, floor=15),
     Rule('C15.R2', 'result False => reported (path search to every constant False)', r2_false_implies_reported, floor=11),
@@ -398,4 +463,5 @@ RULES = [
     Rule('C15.R4', 'presence/usage decisions over all combinations; delegation covers missing components', r4_presence_usage, floor=7),
     Rule('C15.R5', 'data element lengths sane; element regexes compile', r5_data, floor=225),
     Rule('C15.R6', 'delegated is_valid calls always run and are and-ed into the result', r6_delegation_always_runs, floor=7),
+    Rule('C15.R7', 'DTP03 is validated against the qualifier sent in DTP02 only', r7_dtp_format_from_qualifier, floor=1),
 ]
